@@ -384,6 +384,13 @@ def mu_check(prop, tier, replay, extra_rule="", extra_assume=(), env=None, post=
     run.assumptions += BASE_ASSUME + list(extra_assume)
     fam = family if family is not None else muconfigs.family(prop, tier)
     results = run_family(run, exe, prop, fam, env=e, cap_tours=cap_tours)
+    if tier == "thorough" and family is None:
+        # the same (quick) family on the build that uses the C11 <stdatomic.h> flavour of nsync's atomic.h (platform/c11): the same
+        # specification must describe it step for step
+        exe11 = build("h_mu", flavour="c11")
+        fam11 = [(n + "_c11", dict(c, _flavour="c11")) for n, c in muconfigs.family(prop, "quick") if not c.get("Binary")]
+        run_family(run, exe11, prop, fam11, env=e, cap_tours=cap_tours)
+        run.cov["flavours"] = ["gcc atomics (platform/gcc)", "C11 atomics (platform/c11), thorough tier"]
     # oracle-only exploration of richer programs under random and priority-based schedules
     nruns = 4000 if tier == "quick" else 100000
     for i, conf in enumerate(muconfigs.RANDOM.get(prop, [])):
